@@ -39,6 +39,66 @@ let merge l1 h1 l2 h2 =
   | None -> "Fuel"
   | Some ((h', hd1), hd2) -> show_list h' hd1 fuel ^ " / " ^ show_list h' hd2 fuel
 
+(* ---- tr: the concrete model PoolConc run on the same op script as the real pool; same trace format as harness.cpp ---- *)
+let fnv1a (t : string) : int =
+  let h = ref 2166136261 in
+  String.iter (fun ch -> h := (!h lxor (Char.code ch)) land 0xFFFFFFFF; h := (!h * 16777619) land 0xFFFFFFFF) t; !h
+let zlist l = String.concat "," (Stdlib.List.map sz l)
+let blks l = String.concat "," (Stdlib.List.map (fun (b, j) -> sz b ^ "." ^ sz j) l)
+let state_of (w : PoolConc.cworld) (p : bool) : string =
+  let x = PoolConc.getp w p in
+  let bufs = x.PoolConc.lfull @ x.PoolConc.lfree in
+  "F:" ^ zlist x.PoolConc.lfull ^ " H:" ^ zlist x.PoolConc.lfree ^ " B:" ^
+  String.concat "" (Stdlib.List.map (fun b -> sz b ^ "=" ^ sz (w.PoolConc.fc b) ^ "[" ^ zlist (PoolConc.chain_of w b) ^ "]") bufs) ^
+  " K:" ^ blks x.PoolConc.cache ^ " n=" ^ sz x.PoolConc.acount
+let blk_eq (a, b) (c, d) = int_of_z a = int_of_z c && int_of_z b = int_of_z d
+let rec remove_nth k = function [] -> [] | x :: t -> if k = 0 then t else x :: remove_nth (k - 1) t
+let trace bc cf bs al ops =
+  if int_of_string bc = 1 then "n/a" else begin
+    let c = zs bc and cfz = zs cf in
+    let b = Gen_MemPoolConst.coq_CorrectBlockSize (zs bs) (zs al) c in
+    let uc = Gen_MemPool.pvUseCache cfz b (zs al) in
+    let w = ref PoolConc.empty_world in
+    let live = [| []; [] |] in      (* (block, serial) in the harness's order *)
+    let serial = ref 0 in
+    let buf = Buffer.create 4096 in
+    let nops = Stdlib.List.length ops in
+    Stdlib.List.iteri (fun i op ->
+      let ret = ref "-" in
+      let pi = Char.code op.[1] - 48 in let p = (pi = 1) in
+      (match op.[0] with
+       | 'a' ->
+         let (w', bk) = PoolConc.coq_Allocate c uc !w p in
+         w := w'; ret := sz (fst bk) ^ "." ^ sz (snd bk);
+         live.(pi) <- live.(pi) @ [(bk, !serial)]; incr serial
+       | 'f' ->
+         let n = Stdlib.List.length live.(pi) in
+         if n > 0 then begin
+           let k = int_of_string (String.sub op 3 (String.length op - 3)) in
+           let k = if k >= 1000000000 then n - 1 else k mod n in
+           let (bk, _) = Stdlib.List.nth live.(pi) k in
+           live.(pi) <- remove_nth k live.(pi);
+           w := PoolConc.coq_Deallocate c cfz uc !w p bk end
+       | 'i' ->
+         let parts = String.split_on_char ':' op in
+         let m = int_of_string (Stdlib.List.nth parts 1) and r = int_of_string (Stdlib.List.nth parts 2) in
+         let m = if m = 0 then 1 else m in
+         let all = live.(0) @ live.(1) in
+         let f bk = (match Stdlib.List.find_opt (fun (b2, _) -> blk_eq b2 bk) all with Some (_, s) -> s mod m = r mod m | None -> false) in
+         w := PoolConc.coq_DeallocateIf c uc !w p f;
+         live.(pi) <- Stdlib.List.filter (fun (_, s) -> not (s mod m = r mod m)) live.(pi)
+       | 'x' -> w := PoolConc.coq_DeallocateAll !w p; live.(pi) <- []
+       | 'm' ->
+         let d = pi and s = Char.code op.[2] - 48 in
+         w := PoolConc.coq_MergeFrom c uc !w (d = 1);
+         live.(d) <- live.(d) @ live.(s); live.(s) <- []
+       | _ -> ());
+      let st = "P0 " ^ state_of !w false ^ " P1 " ^ state_of !w true in
+      Buffer.add_string buf (Printf.sprintf "%s#%08x " !ret (fnv1a st));
+      if i = nops - 1 then Buffer.add_string buf ("| " ^ st)) ops;
+    if nops = 0 then Buffer.add_string buf ("| P0 " ^ state_of !w false ^ " P1 " ^ state_of !w true);
+    Buffer.contents buf end
+
 let () = iter_lines (fun line ->
   match words line with
   | ["consts"] -> print_endline (sz Gen_MemPool.maxAllocAlignment ^ " 18446744073709551615 8")
@@ -92,6 +152,7 @@ let () = iter_lines (fun line ->
     (match PoolLinks.delete_buffer (PoolLinks.heap_of_lists l []) (nth1 l h) (nth1 l k) with
      | None -> print_endline "Stuck"
      | Some h' -> print_endline (show_list h' (nth1 l h) fuel))
+  | "tr" :: bc :: cf :: bs :: al :: _ :: _ :: ops -> print_endline (trace bc cf bs al ops)
   | "mg" :: rest ->
     let (a, b) = split_at_slash [] rest in
     let (l1, h1) = parse_list a and (l2, h2) = parse_list b in
